@@ -209,6 +209,8 @@ pub struct Check {
     pub exhaustive: bool,
     pub extra: Mutex<BTreeMap<String, Value>>,
     pub workers: usize,
+    /// proptest shrink budget (expensive cases: lower it)
+    pub max_shrink_iters: u32,
 }
 
 #[derive(Default)]
@@ -257,6 +259,7 @@ impl Check {
             exhaustive: false,
             extra: Mutex::new(BTreeMap::new()),
             workers,
+            max_shrink_iters: 4000,
         }
     }
 
@@ -387,7 +390,7 @@ impl Check {
                         config.cases = per;
                         config.rng_seed = RngSeed::Fixed(seed);
                         config.failure_persistence = None::<Box<FileFailurePersistence>>.map(|b| b as _);
-                        config.max_shrink_iters = 4000;
+                        config.max_shrink_iters = self.max_shrink_iters;
                         config.max_global_rejects = 1 << 20;
                         let mut runner = TestRunner::new(config);
                         let failed_here = AtomicBool::new(false);
